@@ -159,7 +159,7 @@ def _spec_checks(out, k, cov):
     # ... and every declarative property depends on the lock of its site (negative configurations must be violated)
     cov["negative_configs"] = {}
     for cfg, what in NEGATIVE.items():
-        r = C.tlc("Concurrency", cfg, workers=4, timeout=9000, heap="4g")
+        r = C.tlc("Concurrency", cfg, workers=4, timeout=9000, heap="4g", extra=("-noGenerateSpecTE",))
         if r.ok or not r.violated:
             raise C.InfraError("model failure: %s (%s) is not violated - the declarative layer is vacuous there\n%s" %
                                (cfg, what, "\n".join(r.text[-20:])))
